@@ -56,6 +56,11 @@ def execute(run, cov, log):
     estimsim.execute(run, cov, log)
 
 
+def preload():
+    from sim import seams
+    seams.preload()
+
+
 def shrink(run):
     return estimsim.shrink_run(run)
 
